@@ -66,8 +66,8 @@ CHECKS = [
     {
         "id": "C04",
         "technique": PBT + " / totality oracle (exception whitelist + deterministic stream-call bound) + atheris coverage-guided fuzzing (empty and seeded corpora); enumeration of all 4096 numbers x short lengths",
-        "text": "Arbitrary and structure-mutated payloads, buffers and streams under every validate / quitonerror combination; the only admissible outcomes are an object, StopIteration or a pyrtcm exception class, the iterator raises nothing in ignore/log modes, and the number of stream calls is bounded (termination). Sampled except for the enumerated short-payload space.",
-        "note": "Termination is decided as a bound on stream calls, not CPU time.",
+        "text": "Arbitrary and structure-mutated payloads, buffers and streams under every validate / quitonerror combination; the only admissible outcomes are an object, StopIteration or a pyrtcm exception class, the iterator raises nothing in ignore/log modes, and the number of stream calls is bounded (termination). Streams are scripted doubles, files, non-seekable readers, plain and chunked / compressed sockets (also sockets that die, damaged compressed chunks, odd chunk-size lines). Sampled except for the enumerated short-payload space, the long error runs and the largest UBX read requests.",
+        "note": "Termination is decided as a bound on stream calls and, for loops that never touch the stream, as a deterministic count of library line events relative to the declared input size - never CPU time.",
     },
     {
         "id": "C05",
